@@ -67,3 +67,22 @@ err_t good_wrap_len(const octet_t in[], unsigned long in_len, octet_t* out)
 	*out = in[y_len - 1];
 	return 0;
 }
+
+/* the same wrapped difference passed directly as a length, before in_len is tested */
+void fx_sink(const octet_t buf[], unsigned long count);
+
+err_t bad_wrap_arg(const octet_t in[], unsigned long in_len)
+{
+	fx_sink(in, in_len - 8);
+	if (in_len < 8)
+		return 1;
+	return 0;
+}
+
+err_t good_wrap_arg(const octet_t in[], unsigned long in_len)
+{
+	if (in_len < 8)
+		return 1;
+	fx_sink(in, in_len - 8);
+	return 0;
+}
